@@ -110,9 +110,15 @@ def cases(tier, rng, schema, feats):
 STATUS_BY_FAULT = {"missing": "err 14", "trunc": "err 12", "dup": "err 12", "nonmin": "err 12", "indef": "err 12", "empty": "err 12"}
 
 
+def status_of(ans):
+    a = core.norm(ans)
+    return a if a.startswith("err") or a in ("panic", "missing", "hang") else "ok"
+
+
 def judge(line, m, i):
-    if core.norm(m) != core.norm(i):
-        return "model of the specification and implementation disagree"
+    # C05's observation: rejected or not, and with which status (decoded values are C01's business)
+    if status_of(m) != status_of(i):
+        return f"status differs: the fault calls for {status_of(m)} (model of the specification), implementation answered {status_of(i)}"
     if i and i.startswith("err ") and i not in ("err 01", "err 12", "err 14"):
         return "rejection status outside {0x01, 0x12, 0x14}"
     fault = line.split(".")[1]
